@@ -346,6 +346,33 @@ func c13Random(rr *prng.R, r *fw.Rec) {
 				arr[i] = []float64{1, 2, 3, -1, 0.5, 1e21, 0}[rr.Intn(7)]
 			}
 		}
+		if rr.Intn(3) == 0 {
+			// $sort(a, f) on plain numbers or strings: the comparator decides, not
+			// the default order of the members' type (strict weak orders, so the
+			// result is fixed by stability whatever the algorithm)
+			l, rgt := &jast.Var{Name: "l"}, &jast.Var{Name: "r"}
+			call := func(fn string, x jast.Node) jast.Node {
+				return &jast.Call{Fn: &jast.Var{Name: fn}, Args: []jast.Node{x}}
+			}
+			var body jast.Node
+			switch k := rr.Intn(4); {
+			case k == 0:
+				body = &jast.Bin{Op: "<", L: l, R: rgt}
+			case k == 1:
+				body = &jast.Bin{Op: ">", L: l, R: rgt}
+			case str && k == 2:
+				body = &jast.Bin{Op: rr.Pick("<", ">"), L: call("length", l), R: call("length", rgt)}
+			case str:
+				body = &jast.Bin{Op: rr.Pick("<", ">"), L: call("lowercase", l), R: call("lowercase", rgt)}
+			case k == 2:
+				body = &jast.Bin{Op: rr.Pick("<", ">"), L: call("abs", l), R: call("abs", rgt)}
+			default:
+				body = &jast.Bin{Op: rr.Pick("<", ">"), L: call("floor", l), R: call("floor", rgt)}
+			}
+			tree := &jast.Call{Fn: &jast.Var{Name: "sort"}, Args: []jast.Node{&jast.Name{V: "xs"}, &jast.Lambda{Params: []string{"l", "r"}, Body: body}}}
+			c13Run(r, tree, O{"xs": arr}, nil, nil, "sort-scalars-comparator")
+			return
+		}
 		if rr.Intn(6) == 0 && m > 0 {
 			arr[rr.Intn(m)] = []interface{}{true, "x", 5.0, A{1.0}}[rr.Intn(4)]
 		}
